@@ -12,8 +12,9 @@ def run(ctx):
     s = ctx['seed'] + 4
     return run_parts(ctx, [
         Part('filter_pair', 'corr_filters', 'run_pairs', [s, 400 if q else 8000], specs={'fp_safe_spec'}),
+        Part('filter_pair_sequences', 'corr_filters', 'run_pair_sequences', [s, 60 if q else 1200], specs={'fp_safe_spec'}),
         Part('filter_tables', 'corr_filters', 'run_tables', [s, 150 if q else 3000], specs={'complete_spec'}),
         Part('filter_candset', 'corr_matcher', 'run_candset', [s, 60 if q else 1000]),
         Part('formulas', 'corr_formulas', 'run_std', [s, 300 if q else 3000]),
-        Part('index_code', 'corr_index', 'run', [s, 150 if q else 3000]),
+        Part('index_code', 'corr_index', 'run', [s, 150 if q else 3000], count_exceptions=False),
     ], RULE)
